@@ -99,7 +99,7 @@ def cases(shard, tier):
         return
     n, m = len(lens), max(lens, default=0)
     steps = STEPS_Q if tier == "quick" else STEPS_T
-    for rs in dsl.row_selectors(n, steps):
+    for rs in dsl.row_selectors(n, steps, list_len=3):
         yield [lens, rs, "int64"]
     for rs in ("E", ["i", 0], ["s", None, None, -1], ["l", [0]], ["m", [1] * n]):
         yield [lens, ["t", rs], "int64"]
